@@ -196,6 +196,7 @@ def main():
     ap.add_argument("--tier", default="quick")
     ap.add_argument("--cross", help="comma list of checks to run against each mutant instead of its own")
     ap.add_argument("--json")
+    ap.add_argument("--record", action="store_true", help="seeded mode: write which checks caught the change into its meta.json")
     args = ap.parse_args()
     only = set(args.only.split(",")) if args.only else None
     jobs = []
@@ -243,6 +244,16 @@ def main():
             print(f"{r['status']:12s} {r['property']} {r['name']}  {extra}", flush=True)
     if args.json:
         json.dump(results, open(args.json, "w"), indent=1)
+    if args.cmd == "seeded" and args.record:
+        for r in results:
+            mp = os.path.join(VERIF, "seeded", r["name"], "meta.json")
+            if os.path.exists(mp) and "results" in r:
+                meta = json.load(open(mp))
+                checks = meta.setdefault("checks_run", {})
+                for p2, v in r["results"].items():
+                    checks[p2] = {"tier": args.tier, "exit": v["exit"], "first_violation": v["first"][:200]}
+                meta["caught_by"] = sorted(p2 for p2, v in checks.items() if v["exit"] == 1)
+                json.dump(meta, open(mp, "w"), indent=1)
     missed = [r for r in results if r["status"] != "CAUGHT"]
     print(f"{len(results) - len(missed)}/{len(results)} caught")
     return 1 if missed else 0
